@@ -2317,6 +2317,11 @@ class FileSet:
             file_info.times, fill=file_info.attr
         )
 
+        # The new name might be the old one (e.g. a conversion in place).
+        # Then there is no original that could be removed or copied:
+        same_file = os.path.abspath(new_filename) \
+            == os.path.abspath(file_info.path)
+
         # Shall we simply move or even convert the files?
         if convert:
             # Read the file with the current file handler
@@ -2329,8 +2334,11 @@ class FileSet:
             # Store the data of the file with the new file handler
             destination.write(data, new_filename)
 
-            if not copy:
+            if not copy and not same_file:
                 os.remove(file_info.path)
+        elif same_file:
+            # The file has its new name already
+            return
         else:
             # Create the new directory if necessary.
             fileset.file_system.makedirs(
